@@ -46,6 +46,8 @@ type pObs struct {
 	Info  pInfo  `json:"info"`
 	RFlag bool   `json:"rflag"`
 	IFlag bool   `json:"iflag"`
+	// ValsFirst: the summary's attribute values, NameID and SessionIndex are those of the FIRST assertion (and of no other)
+	ValsFirst bool `json:"vals_first"`
 }
 
 func (Profile) Name() string { return "Profile" }
@@ -185,10 +187,22 @@ func (Profile) Run(c *orch.Case) *orch.Outcome {
 	applyRootFaults(rs, in.Doc.Root)
 	root := b.ResponseEl(rs)
 	var els []*etree.Element
+	firstAttrs := map[string][]string{}
+	var firstNameID *string
 	for i, af := range in.Doc.As {
 		spec := world.Content([]string{"GA1", "GA2", "GA1"}[i%3])
 		spec.ID = fmt.Sprintf("_assert-p%d", i+1)
 		applyAsFaults(spec, af)
+		if i == 0 {
+			if spec.Attrs != nil {
+				for _, a := range *spec.Attrs {
+					firstAttrs[a.Name] = a.Values
+				}
+			}
+			if spec.Subject != nil {
+				firstNameID = spec.Subject.NameID
+			}
+		}
 		el := b.AssertionEl(spec, false)
 		if af.Advice == "nested" {
 			ev := world.Content("GA2")
@@ -244,6 +258,23 @@ func (Profile) Run(c *orch.Case) *orch.Outcome {
 		o.Info.Err = projectErr(err)
 		if r != nil {
 			o.IFlag = r.ResponseSignatureValidated
+			want := firstAttrs
+			o.ValsFirst = len(r.Values) == len(want)
+			for name, vals := range want {
+				got := r.Values.GetAll(name)
+				if len(got) != len(vals) {
+					o.ValsFirst = false
+					continue
+				}
+				for i := range vals {
+					if got[i] != vals[i] {
+						o.ValsFirst = false
+					}
+				}
+			}
+			if firstNameID != nil && r.NameID != *firstNameID {
+				o.ValsFirst = false
+			}
 		}
 	}()
 	return &orch.Outcome{Obs: o, Replay: map[string]any{"encoded_response": enc, "document": string(doc), "sp": describeSP(sp), "layout": lay}}
